@@ -145,6 +145,32 @@ struct {
 #define vg_lk_hit         vg_lkp.hit
 
 /* ======================================================================================
+ * 1b. exact strlen (units that define VERIF_OWN_STRLEN and VERIF_STRLEN_FORALL; SMT back end)
+ *    env.h's strlen returns SOME NUL position, which is too weak where a destination-size
+ *    argument depends on two strlen calls agreeing (spifconf_find_file's PATH_MAX buffers).
+ *    This variant returns THE first NUL: minimality is a quantified assumption, so units using
+ *    it run on z3 (the driver rejects a SAT run that ignored a quantifier).
+ *    ASSUMES (as env.h): the argument holds a NUL at or after the pointer.
+ * ====================================================================================== */
+#if defined(VERIF_OWN_STRLEN) && defined(VERIF_STRLEN_FORALL)
+size_t strlen(const char *s)
+{
+    __CPROVER_assert(s != NULL, "strlen: argument not NULL");
+    __CPROVER_assert(__CPROVER_r_ok(s, 1), "strlen: argument readable");
+    size_t r = nondet_size_t();
+    __CPROVER_assume(r < VREMAIN(s));
+    __CPROVER_assume(s[r] == 0);
+    __CPROVER_assume(__CPROVER_forall { size_t vq_i; (vq_i < r) ==> s[vq_i] != 0 });
+    return r;
+}
+size_t strnlen(const char *s, size_t maxlen)
+{
+    size_t r = strlen(s);
+    return r < maxlen ? r : maxlen;
+}
+#endif
+
+/* ======================================================================================
  * 2. comparison family (replaces env.h's: units define VERIF_OWN_STRCMP)
  *    strncasecmp/strncmp are EXACT for n <= 9 (every use in conf.c compares against a
  *    literal of at most 8 characters), arbitrary beyond.  strcasecmp/strcmp are exact as long
@@ -524,6 +550,16 @@ int v_snprintf(char *d, size_t size, int unused)
 #define libast_fatal_error(fmt, ...)    do { v_msg(0, ##__VA_ARGS__); __CPROVER_assume(0); } while (0)
 #undef  fprintf
 #define fprintf(f, fmt, ...)            v_msg(0, ##__VA_ARGS__)
+
+/* ======================================================================================
+ * 5c. loop contracts of conf.c (text of the annotation table annot/conf.c.conf.ann)
+ * ====================================================================================== */
+/* spifconf_find_file, loop 1: for (path = pathlist; path && *path != '\0'; path = p) */
+#define VCA_FIND_FILE_LOOP \
+    __CPROVER_assigns(path, p, fst, __CPROVER_object_whole(full_path)) \
+    __CPROVER_loop_invariant(path == NULL || (pathlist != NULL && __CPROVER_same_object(path, pathlist) && __CPROVER_POINTER_OFFSET(path) <= vg_n3)) \
+    __CPROVER_loop_invariant(maxpathlen > 0 && len >= 0 && maxpathlen == (spif_int32_t) sizeof(name) - len - 2) \
+    __CPROVER_decreases(path == NULL ? 0 : vg_n3 + 1 - __CPROVER_POINTER_OFFSET(path))
 
 /* ======================================================================================
  * 6. STATED RE-BINDINGS of conf.c macros (units that define VERIF_CONF_REBIND)
